@@ -316,9 +316,15 @@ func (g *Gen) snippet() string {
 				if !g.has(comp) {
 					g.put(comp, `<ul class="wide"><li v-for="(index, item) in items"><slot :item="item" :index="index" :pa="1" :pb="2" :pc="3" :pd="4" :pe="5" :pf="6" :pg="7" :ph="8" :pi="name"></slot></li></ul>`)
 				}
+				if r.Bool() {
+					// un-named slot scope: every prop becomes a binding of its own in the content's scope
+					return `<template include="` + comp + `" :items="items"><template #default><b>{{ index }}/{{ pa }}{{ ph }}{{ pi }}</b></template></template>`
+				}
 				return `<template include="` + comp + `" :items="items"><template v-slot="sp">{{ sp.index }}={{ sp.item.label }}/{{ sp.ph }}{{ sp.pi }}</template></template>`
 			case 2:
-				return `<p class="unbound">[{{ item }}|{{ index }}|{{ sp }}|{{ pa }}|{{ ph }}|{{ pi }}|{{ x }}|{{ label }}]</p>`
+				// names nothing binds here: only a scope that kept another render's (or another element's) bindings would;
+				// once at the top level, once inside a loop (a pushed, pooled scope)
+				return `<p class="unbound">[{{ item }}|{{ index }}|{{ sp }}|{{ pa }}|{{ ph }}|{{ pi }}|{{ x }}|{{ label }}]</p><p v-for="u in items">[{{ pa }}|{{ pb }}|{{ ph }}|{{ pi }}|{{ index }}|{{ label }}]</p>`
 			case 3:
 				var at []string
 				for i := 0; i < 14; i++ {
